@@ -3,9 +3,11 @@
 
 #![allow(dead_code)]
 mod alter;
+mod cenc;
 mod drv;
 mod env;
 mod explore;
+mod format;
 mod props;
 mod report;
 mod scheme;
@@ -36,6 +38,8 @@ fn props() -> Vec<PropDef> {
         p!("C02", "fault_enumeration", c02),
         p!("C03", "model_checking", c03),
         p!("C04", "exploration", c04),
+        p!("C05", "exploration", c05),
+        p!("C06", "exploration", c06),
         p!("C07", "fault_enumeration", c07),
         p!("C08", "exploration", c08),
         p!("C10", "fault_enumeration", c10),
@@ -79,6 +83,8 @@ fn main() {
         std::process::exit(replay_value(&id, &v["case"]));
     }
     if args[0] == "--replay-case" {
+        sup::child_init();
+        sup::set_case("{}");
         let v: Value = serde_json::from_str(&args[2]).expect("case json");
         std::process::exit(replay_value(&args[1], &v));
     }
